@@ -216,4 +216,4 @@ def cases(draw):
 
 
 def subs(tier):
-    return [Sub("conv", cases(), run_case, quick=15000, thorough=100000)]
+    return [Sub("conv", cases(), run_case, quick=15000, thorough=600000)]
